@@ -5,3 +5,15 @@ CHACHA_UNITS = {0: ["crypto_aead/chacha20poly1305/aead_chacha20poly1305.c"],
 VNAME = {0: "chacha20poly1305", 1: "chacha20poly1305-ietf", 2: "xchacha20poly1305-ietf"}
 GLUE_UNITS = ["sodium/utils.c", "crypto_verify/verify.c"]
 GLUE_STUBS = ["ideal.c", "misuse.c", "libc.c", "x86_builtins.c"]
+SB_UNITS = {0: ["crypto_secretbox/crypto_secretbox_easy.c", "crypto_secretbox/crypto_secretbox.c",
+                "crypto_secretbox/xsalsa20poly1305/secretbox_xsalsa20poly1305.c",
+                "crypto_stream/xsalsa20/stream_xsalsa20.c"],
+            1: ["crypto_secretbox/xchacha20poly1305/secretbox_xchacha20poly1305.c"]}
+SBNAME = {0: "xsalsa20poly1305", 1: "xchacha20poly1305"}
+BOX_UNITS = {0: SB_UNITS[0] + ["crypto_box/crypto_box_easy.c", "crypto_box/crypto_box.c", "crypto_box/crypto_box_seal.c",
+                             "crypto_box/curve25519xsalsa20poly1305/box_curve25519xsalsa20poly1305.c",
+                             "crypto_generichash/crypto_generichash.c"],
+             1: SB_UNITS[1] + ["crypto_box/curve25519xchacha20poly1305/box_curve25519xchacha20poly1305.c",
+                             "crypto_box/curve25519xchacha20poly1305/box_seal_curve25519xchacha20poly1305.c",
+                             "crypto_generichash/crypto_generichash.c"]}
+BOX_STUBS = GLUE_STUBS + ["ideal_hash.c", "ideal_dh.c", "rng.c"]
